@@ -151,9 +151,61 @@ func runCase(c Case) (string, stats) {
 		return whole, nil
 	}
 
+	// messages A has sent that B has not read yet (the peer does not wait for B: it pipelines)
+	type queued struct {
+		whole []byte
+		prot  int
+	}
+	var queue []queued
+	recvQueued := func(oi int) string {
+		q := queue[0]
+		queue = queue[1:]
+		got, err := B.ReceiveCompleteMessage(kit.Bg)
+		if err != nil {
+			return fmt.Sprintf("op %d: B cannot receive a message A sent before B got round to reading it (hand-offs so far %d, %d more waiting): %v", oi, st.handoffs, len(queue), err)
+		}
+		if !bytes.Equal(got, q.whole) {
+			return fmt.Sprintf("op %d: pipelined A->B message differs: %s", oi, kit.FirstDiff(q.whole, got))
+		}
+		recvProt += q.prot
+		if handed {
+			st.afterAB = true
+		}
+		return ""
+	}
 	for oi, op := range c.Ops {
 		boundaryB := sendState == "clean" && !readOpen && !stalled
+		if len(queue) > 0 && (op.K == "a2b" || op.K == "bopen" || op.K == "bstall" || op.K == "mode") {
+			for len(queue) > 0 { // these operations want an empty pipe
+				if v := recvQueued(oi); v != "" {
+					return v, st
+				}
+			}
+		}
 		switch op.K {
+		case "asend": // A sends 1-3 messages back to back; B reads none of them yet
+			if readOpen || stalled {
+				continue
+			}
+			for i := 0; i < 1+op.N%3; i++ {
+				w0 := len(p.CA.WriteLog)
+				whole, err := sendMsg(A, op.Sizes)
+				if err != nil {
+					return fmt.Sprintf("op %d: A send: %v", oi, err), st
+				}
+				n := mark(p.CA, protA, w0, modeOn)
+				if !modeOn {
+					n = 0
+				}
+				queue = append(queue, queued{whole, n})
+			}
+		case "brecv": // B reads the next waiting message
+			if readOpen || stalled || len(queue) == 0 {
+				continue
+			}
+			if v := recvQueued(oi); v != "" {
+				return v, st
+			}
 		case "a2b":
 			if readOpen || stalled {
 				continue
@@ -387,9 +439,9 @@ func genCase(t *rapid.T) Case {
 		c.Ops = append(c.Ops, Op{K: "a2b", Sizes: []int{rapid.SampledFrom(sizes).Draw(t, "w1")}}, Op{K: "b2a", Sizes: []int{rapid.SampledFrom(sizes).Draw(t, "w2")}})
 	}
 	for i := 0; i < n; i++ {
-		k := rapid.SampledFrom([]string{"a2b", "a2b", "b2a", "b2a", "bwrite", "bend", "bstart", "bopen", "bclose", "mode", "export", "handoff", "handoff", "handoff", "bstall", "bresume"}).Draw(t, "op")
+		k := rapid.SampledFrom([]string{"a2b", "a2b", "b2a", "b2a", "bwrite", "bend", "bstart", "bopen", "bclose", "mode", "export", "handoff", "handoff", "handoff", "bstall", "bresume", "asend", "asend", "brecv", "brecv"}).Draw(t, "op")
 		op := Op{K: k, N: rapid.IntRange(0, 100000).Draw(t, "n")}
-		if k == "a2b" || k == "b2a" || k == "bopen" {
+		if k == "a2b" || k == "b2a" || k == "bopen" || k == "asend" {
 			nf := rapid.SampledFrom([]int{1, 1, 2, 3}).Draw(t, "nframes")
 			for j := 0; j < nf; j++ {
 				op.Sizes = append(op.Sizes, rapid.SampledFrom(sizes).Draw(t, "size"))
@@ -435,6 +487,8 @@ func TestC15Directed(t *testing.T) {
 		{{K: "bopen", Sizes: []int{100}, N: 0}, {K: "handoff"}, {K: "bclose"}},
 		{{K: "bwrite", N: 10}, {K: "export"}, {K: "handoff"}, {K: "bend"}, {K: "handoff"}, {K: "bstart"}},
 		{{K: "mode", N: 1}, {K: "handoff"}, {K: "mode", N: 0}},
+		{{K: "asend", Sizes: []int{30}, N: 2}, {K: "brecv"}, {K: "handoff"}, {K: "brecv"}, {K: "handoff"}, {K: "brecv"}},
+		{{K: "asend", Sizes: []int{5000, 10}, N: 1}, {K: "brecv"}, {K: "export"}, {K: "handoff"}, {K: "b2a", Sizes: []int{9}}, {K: "brecv"}},
 	}
 	bad := 0
 	for i, mid := range mids {
@@ -450,7 +504,7 @@ func TestC15Directed(t *testing.T) {
 			}
 		}
 	}
-	ev.Exhaustive("6 half-done states (message half-received after a failed open, twice; open read; unread open message; buffered send; crypto mode off) x 4 cleartext prefixes, each with export attempts inside and hand-offs after")
+	ev.Exhaustive("8 states (two of them: the peer has pipelined further messages that B has not read at the hand-off; message half-received after a failed open, twice; open read; unread open message; buffered send; crypto mode off) x 4 cleartext prefixes, each with export attempts inside and hand-offs after")
 }
 
 func TestC15Histories(t *testing.T) {
